@@ -41,6 +41,28 @@ Theorem C14_rr_larger_share : forall n c0 M, (0 < n)%nat -> 0 <= c0 -> c0 + Z.of
 Proof. exact rr_larger_share. Qed.
 Print Assumptions C14_rr_larger_share.
 
+(* a stable list whose lookups sometimes fail (subscriber error, empty answer) in between:
+   failed calls draw no ticket - the selections made over ANY such history are those of
+   succ_count calls on the fixed list, the counter advanced by exactly that number, hence
+   every window of the selections that were made is fair (and the sequential oracle holds) *)
+Theorem C14_rr_failed_lookups_draw_no_ticket : forall hs, hs <> [] -> forall rs c0,
+  0 <= c0 < two64 -> Stable hs rs ->
+  oks (snd (rr_run c0 rs)) = oks (picks_of hs (tickets c0 (succ_count rs))) /\
+  fst (rr_run c0 rs) = (c0 + Z.of_nat (succ_count rs)) mod two64.
+Proof. exact rr_run_stable. Qed.
+Print Assumptions C14_rr_failed_lookups_draw_no_ticket.
+
+Theorem C14_rr_stable_history_fair : forall hs rs c0, NoDup hs -> hs <> [] -> 0 <= c0 < two64 ->
+  Stable hs rs -> c0 + Z.of_nat (succ_count rs) <= two64 ->
+  RRFair hs (oks (snd (rr_run c0 rs))) /\
+  rr_seq_b hs (oks (snd (rr_run c0 rs))) = true.
+Proof. exact rr_stable_fair. Qed.
+Print Assumptions C14_rr_stable_history_fair.
+
+Theorem C14_stable_oracle_sound : forall hs rs, stable_b hs rs = true -> Stable hs rs.
+Proof. exact stable_b_sound. Qed.
+Print Assumptions C14_stable_oracle_sound.
+
 (* across the wrap the same holds when the number of hosts divides 2^64 ... *)
 Theorem C14_rr_balance_wrap_divides : forall hs c0 M, NoDup hs -> hs <> [] ->
   two64 mod Z.of_nat (List.length hs) = 0 ->
@@ -161,3 +183,12 @@ Proof. vm_compute. auto. Qed.
 Example C14_ex_seq_oracle : rr_seq_b ["a"; "b"; "c"] ["b"; "c"; "a"; "b"; "c"; "a"; "b"] = true
   /\ rr_seq_b ["a"; "b"; "c"] ["b"; "c"; "a"; "a"] = false.
 Proof. vm_compute. auto. Qed.
+Example C14_ex_stable : exists rs, Stable ["a"; "b"] rs /\ succ_count rs = 3%nat /\
+  oks (snd (rr_run 0 rs)) = ["a"; "b"; "a"].
+Proof.
+  exists [{| rp_hosts := ["a"; "b"]; rp_err := None |}; {| rp_hosts := []; rp_err := Some "x" |};
+          {| rp_hosts := ["a"; "b"]; rp_err := None |}; {| rp_hosts := []; rp_err := None |};
+          {| rp_hosts := ["a"; "b"]; rp_err := None |}].
+  split; [|split; vm_compute; reflexivity].
+  intros r [H|[H|[H|[H|[H|[]]]]]]; subst; vm_compute; eauto.
+Qed.
